@@ -427,8 +427,66 @@ class KernelAnalysis:
                 return a[1] + 1, a[0], not desc
         return None
 
+    def _unzip_ranges(self, st):
+        """`for i, k in zip(range(..), range(..))` with unit steps and equal lengths -> the loop `for t in range(n): i = a1 +- t; k = a2 +- t; body`
+        (one iteration variable, the targets affine in it); None if the form or the equality of the lengths is not established"""
+        import copy
+        it = st.iter
+        if not (isinstance(st.target, ast.Tuple) and all(isinstance(t, ast.Name) for t in st.target.elts) and isinstance(it, ast.Call)
+                and isinstance(it.func, ast.Name) and it.func.id == 'zip' and len(it.args) == len(st.target.elts) and not it.keywords):
+            return None
+        tname = '_zip%d' % st.lineno
+        pro, lens = [], []
+        for tgt, src in zip(st.target.elts, it.args):
+            rev = False
+            node = src
+            if isinstance(node, ast.Call) and isinstance(node.func, ast.Name) and node.func.id == 'reversed' and len(node.args) == 1:
+                rev, node = True, node.args[0]
+            if isinstance(node, ast.Subscript) and isinstance(node.slice, ast.Slice) and node.slice.lower is None and node.slice.upper is None \
+                    and node.slice.step is not None and norm(node.slice.step) == '-1':
+                rev, node = not rev, node.value
+            if not (isinstance(node, ast.Call) and isinstance(node.func, ast.Name) and node.func.id == 'range' and 1 <= len(node.args) <= 3 and not node.keywords):
+                return None
+            a = [copy.deepcopy(x) for x in node.args]
+            if len(a) == 1:
+                a = [ast.Constant(value=0), a[0]]
+            step = 1
+            if len(a) == 3:
+                sa = to_aff(a[2], self.aff_env)
+                if sa is None or not sa.is_const or sa.c not in (1, -1):
+                    return None
+                step = int(sa.c)
+            lo, hi = a[0], a[1]
+            T = ast.Name(id=tname, ctx=ast.Load())
+            if step == 1:
+                n_ = ast.BinOp(left=hi, op=ast.Sub(), right=lo)                 # range(lo, hi): lo, lo+1, ..
+                first = lo if not rev else ast.BinOp(left=copy.deepcopy(hi), op=ast.Sub(), right=ast.Constant(value=1))
+                asc = not rev
+            else:
+                n_ = ast.BinOp(left=lo, op=ast.Sub(), right=hi)                 # range(lo, hi, -1): lo, lo-1, ..
+                first = lo if not rev else ast.BinOp(left=copy.deepcopy(hi), op=ast.Add(), right=ast.Constant(value=1))
+                asc = rev
+            val = ast.BinOp(left=copy.deepcopy(first), op=ast.Add() if asc else ast.Sub(), right=T)
+            pro.append(ast.Assign(targets=[ast.Name(id=tgt.id, ctx=ast.Store())], value=val))
+            lens.append(n_)
+        la = [to_aff(x, self.aff_env) for x in lens]
+        if any(x is None for x in la) or any(x != la[0] for x in la[1:]):
+            return None
+        loop = ast.For(target=ast.Name(id=tname, ctx=ast.Store()), iter=ast.Call(func=ast.Name(id='range', ctx=ast.Load()), args=[lens[0]], keywords=[]),
+                       body=pro + list(st.body), orelse=[])
+        for n in ast.walk(loop):
+            if not hasattr(n, 'lineno'):
+                n.lineno = st.lineno
+                n.end_lineno = getattr(st, 'end_lineno', st.lineno)
+                n.col_offset = st.col_offset
+                n.end_col_offset = getattr(st, 'end_col_offset', st.col_offset)
+        return loop
+
     def for_loop(self, st):
         if not isinstance(st.target, ast.Name):
+            uz = self._unzip_ranges(st) if not st.orelse else None
+            if uz is not None:
+                return self.for_loop(uz)
             # e.g. `for nf, f in enumerate(...)`: not a coefficient loop
             self._walk_opaque(st)
             return
